@@ -123,7 +123,7 @@ def run(chk):
     if not r["ok"]:
         raise vlib.Inconclusive("spec-level counterexample:\n" + r.get("counterexample", "")[:3000])
     rnd = random.Random(chk.seed)
-    behs = chk.tlc_simulate("ChunkFile", "ChunkFile_sim.cfg", 1500 if thorough else 200, 60, chk.seed)
+    behs = chk.tlc_simulate("ChunkFile", "ChunkFile_sim.cfg", 8000 if thorough else 200, 60, chk.seed)
     scripts = [script_from_behaviour(b, "sim%d" % i, rnd.choice([1, 4096] if not thorough else [1, 512, 4096, 33000])) for i, b in enumerate(behs)]
     scripts += grid([1, 4096, 33000, 512] if thorough else [1, 4096], thorough)
     n_tr, n_ev, rejected, kinds, states = run_scripts(chk, scripts)
